@@ -27,10 +27,11 @@
 (* integers are 32 bit): 2^32-k is written -k.  ULess is the unsigned      *)
 (* order.                                                                  *)
 (*                                                                         *)
-(* Deviations (each FALSE in the contract).  Dev_NoSeqCheck and            *)
-(* Dev_MergeDupFilter were defects of the pinned tree, repaired by b87ca08 *)
-(* and 5eadfcf: they stay as deviation demos (non-vacuity) but are FALSE   *)
-(* in the as-is configuration, so a regression is a violation again.       *)
+(* Deviations (each FALSE in the contract).  Dev_NoSeqCheck,               *)
+(* Dev_MergeDupFilter and Dev_ShortChunkPanics were defects of the pinned  *)
+(* tree, repaired by b87ca08, 5eadfcf and 93c609a: they stay as deviation  *)
+(* demos (non-vacuity) but are FALSE in the as-is configuration, so a      *)
+(* regression is a violation again.                                        *)
 (*   Dev_NoSeqCheck       readChunk decodes the sequence header and never  *)
 (*                        compares it with the last accepted number        *)
 (*   Dev_MergeDupFilter   mergeChunks skips a chunk whose number equals    *)
@@ -332,6 +333,7 @@ InvSenderConforms ==
 
 ---------------------------------------------------------------------------
 \* behaviour emission (generation configs only)
-Beh == [plan |-> plan, sp |-> sp, mode |-> mode, sweep |-> sw, chunks |-> wire, steps |-> hist]
+Beh == [plan |-> plan, sp |-> sp, mode |-> mode, sweep |-> sw, chunks |-> wire, steps |-> hist,
+        maxchunks |-> MaxChunks, buffered |-> TotalBuffered(rc), asis_buffered |-> TotalBuffered(ra)]
 InvEmit == Terminal => PrintT("BEH " \o ToJson(Beh))
 =============================================================================
